@@ -247,12 +247,12 @@ Qed.
 
 (* sub-identifier loop: consumes at least one byte, never more than [length] *)
 Lemma post_objid_sub b len fuel : forall p length sub,
-  bytes_ok b -> 0 <= p -> p + length <= len -> len < bsize b -> (Z.of_nat fuel > length) ->
+  bytes_ok b -> 0 <= p -> 0 <= length -> p + length <= len -> len < bsize b -> (Z.of_nat fuel > length) ->
   post (objid_sub b fuel p length sub)
        (fun '(p', length', sub') => p < p' /\ 0 <= length' /\ p' + length' = p + length).
 Proof.
-  induction fuel as [|f IH]; intros p length sub HB H0 H1 H2 Hf; cbn [objid_sub].
-  - destruct (length <=? 0) eqn:E; lia.
+  induction fuel as [|f IH]; intros p length sub HB H0 Hl H1 H2 Hf; cbn [objid_sub].
+  - cbn [post]. lia.
   - destruct (length <=? 0) eqn:E; [exact I|].
     eapply post_bind; [apply post_rd; lia|]; cbv beta. intros x _.
     destruct (negb (Z.land x asn_bit8 =? 0)).
@@ -263,7 +263,7 @@ Qed.
 
 Lemma post_objid_loop b len ocap fuel : forall p length objlen oidx acc,
   bytes_ok b -> 0 <= p -> 0 <= length -> p + length <= len -> len < bsize b -> (Z.of_nat fuel > length) ->
-  0 <= oidx -> oidx + objlen <= ocap ->
+  0 <= oidx <= ocap -> oidx + objlen <= ocap ->
   post (objid_loop b fuel p length objlen oidx ocap acc)
        (fun '(pe, n, acc') => p <= pe <= p + length /\ oidx <= n <= ocap).
 Proof.
@@ -298,4 +298,148 @@ Proof.
   eapply post_bind; [apply post_idx; lia|]; cbv beta. intros _ _.
   eapply post_bind; [apply post_idx; lia|]; cbv beta. intros _ _.
   destruct (match rev acc with [] => 0 | x :: _ => x end =? 43); cbn [post]; unfold inv; lia.
+Qed.
+
+(* ================================================================== SNMP message *)
+Lemma post_snmp_pdu_decode b len p dl :
+  bytes_ok b -> inv b len p dl ->
+  post (snmp_pdu_decode b p dl) (fun '(p', dl', _, _, _, _) => inv b len p' dl').
+Proof.
+  intros HB HI. unfold snmp_pdu_decode.
+  eapply post_bind; [apply (post_asn_parse_header b len); assumption|]; cbv beta.
+  intros [[p1 d1] cmd] (I1 & _).
+  eapply post_bind; [apply (post_asn_parse_int b len); assumption|]; cbv beta.
+  intros [[[p2 d2] t2] v2] (I2 & _).
+  eapply post_bind; [apply (post_asn_parse_int b len); assumption|]; cbv beta.
+  intros [[[p3 d3] t3] v3] (I3 & _).
+  eapply post_bind; [apply (post_asn_parse_int b len); assumption|]; cbv beta.
+  intros [[[p4 d4] t4] v4] (I4 & _).
+  cbn [post]. exact I4.
+Qed.
+
+Lemma max_name_len_val : max_name_len = 64. Proof. reflexivity. Qed.
+
+(* one variable: the cursor stays inside the list, the remaining list length strictly decreases *)
+Lemma post_varbind_one b len p all :
+  bytes_ok b -> inv b len p all ->
+  post (varbind_one b p all) (fun '(p', all', _) => inv b len p' all' /\ all' < all).
+Proof.
+  intros HB HI. unfold varbind_one.
+  eapply post_bind; [apply (post_asn_parse_header b len); assumption|]; cbv beta.
+  intros [[tmp this] t] (I1 & L1 & M1).
+  destruct (negb (t =? asn_seq_con)); [exact I|].
+  eapply post_bind; [apply (post_asn_parse_objid b len); [assumption | assumption | rewrite max_name_len_val; lia | lia]|]; cbv beta.
+  intros [[[[p2 this2] t2] ids] nl] (I2 & L2 & M2 & N2).
+  destruct (negb (t2 =? asn_object_id)); [exact I|].
+  eapply post_bind; [apply (post_asn_parse_header b len); assumption|]; cbv beta.
+  intros [[p3 d3] vt] (I3 & L3 & M3).
+  assert (HA : inv b len p3 (all - (this + (tmp - p))) /\ all - (this + (tmp - p)) < all)
+    by (unfold inv in *; lia).
+  assert (HB' : forall q dq, inv b len q dq -> q + dq <= p2 + this2 ->
+                 inv b len q (all - (this + (tmp - p))) /\ all - (this + (tmp - p)) < all)
+    by (intros q dq Hq Hle; unfold inv in *; lia).
+  destruct (vt =? asn_integer).
+  { eapply post_bind; [apply (post_asn_parse_int b len); assumption|]; cbv beta.
+    intros [[[q dq] tq] vq] (Iq & Lq & Mq). cbn [post]. apply (HB' q dq); assumption. }
+  destruct (is_in vt [smi_counter32; smi_gauge32; smi_timeticks]).
+  { eapply post_bind; [apply (post_asn_parse_unsigned_int b len); assumption|]; cbv beta.
+    intros [[[q dq] tq] vq] (Iq & Lq & Mq). cbn [post]. apply (HB' q dq); assumption. }
+  destruct (is_in vt [asn_octet_str; smi_ipaddress; smi_opaque]).
+  { assert (Hthis2 : 0 <= this2 < 2147483648) by (unfold inv in *; lia).
+    replace (if 0 <=? this2 then this2 else 0) with this2 by (destruct (0 <=? this2) eqn:E; lia).
+    pose proof (post_asn_parse_string false b len p2 this2 this2 (this2 + 1) HB I2) as HS.
+    destruct (asn_parse_string false b p2 this2 this2 (this2 + 1)) as [[[[[q dq] tq] n] s]| | |] eqn:ES.
+    - destruct HS as (Iq & Lq & Mq & Nq & _); [lia | lia |].
+      eapply post_bind; [apply post_idx; lia|]; cbv beta. intros _ _.
+      cbn [post]. apply (HB' q dq); assumption.
+    - eapply post_bind; [apply post_idx; lia|]; cbv beta. intros _ _. exact I.
+    - apply HS; lia.
+    - apply HS; lia. }
+  destruct (vt =? asn_object_id).
+  { eapply post_bind; [apply (post_asn_parse_objid b len); [assumption | assumption | rewrite max_name_len_val; lia | lia]|]; cbv beta.
+    intros [[[[q dq] tq] ids2] n2] (Iq & Lq & Mq & Nq). cbn [post]. apply (HB' q dq); assumption. }
+  destruct (is_in vt [asn_null; smi_nosuchinstance; smi_nosuchobject; smi_endofmibview]); [|exact I].
+  cbn [post]. apply (HB' p3 d3); [assumption | lia].
+Qed.
+
+Lemma post_varbind_loop b len fuel : forall p all acc,
+  bytes_ok b -> inv b len p all -> (Z.of_nat fuel > all) ->
+  post (varbind_loop b fuel p all acc) (fun _ => True).
+Proof.
+  induction fuel as [|f IH]; intros p all acc HB HI Hf; cbn [varbind_loop].
+  - unfold inv in HI. cbn [post]. lia.
+  - destruct (0 <? all) eqn:E; [|exact I].
+    eapply post_bind; [apply (post_varbind_one b len); assumption|]; cbv beta.
+    intros [[p' all'] v] (I1 & L1).
+    apply IH; [assumption | assumption | lia].
+Qed.
+
+Lemma post_snmp_var_decode b len p dl :
+  bytes_ok b -> inv b len p dl -> post (snmp_var_decode b p dl) (fun _ => True).
+Proof.
+  intros HB HI. unfold snmp_var_decode.
+  eapply post_bind; [apply (post_asn_parse_header b len); assumption|]; cbv beta.
+  intros [[p1 d1] t] (I1 & _).
+  destruct (negb (t =? asn_seq_con)); [exact I|].
+  apply (post_varbind_loop b len); [assumption | assumption |].
+  unfold inv in I1. rewrite Nat2Z.inj_succ, Z2Nat.id; lia.
+Qed.
+
+(* THE partial bounds theorem for SNMP: with six bytes of slack after the received bytes no reader leaves the object
+   and no loop budget is exhausted *)
+Lemma snmp_msg_decode_safe b len :
+  bytes_ok b -> 0 <= len -> len + 6 <= bsize b -> len < 2147483648 ->
+  safe (snmp_msg_decode b len).
+Proof.
+  intros HB H0 H1 H2. apply (post_safe _ (fun _ => True)). unfold snmp_msg_decode.
+  assert (HI : inv b len 0 len) by (unfold inv; lia).
+  eapply post_bind; [apply (post_asn_parse_header b len); assumption|]; cbv beta.
+  intros [[p1 d1] t] (I1 & _).
+  destruct (negb (t =? asn_seq_con)); [exact I|].
+  eapply post_bind; [apply (post_asn_parse_int b len); assumption|]; cbv beta.
+  intros [[[p2 d2] t2] ver] (I2 & _).
+  eapply post_bind; [apply (post_asn_parse_string true b len); [assumption | assumption | vm_compute; split; congruence | reflexivity]|]; cbv beta.
+  intros [[[[p3 d3] t3] clen] comm] (I3 & _ & _ & N3 & _).
+  destruct (clen =? snmp_comm_len0) eqn:E; [exact I|].
+  eapply post_bind; [apply post_idx; change snmp_comm_cap with 128; change snmp_comm_len0 with 128 in *; lia|]; cbv beta. intros _ _.
+  destruct (is_in 0 comm); [exact I|].
+  eapply post_bind; [apply (post_snmp_pdu_decode b len); assumption|]; cbv beta.
+  intros [[[[[p4 d4] cmd] rq] es] ei] I4.
+  eapply post_bind; [apply (post_snmp_var_decode b len); assumption|]; cbv beta.
+  intros [p5 vars] _. exact I.
+Qed.
+
+(* receive buffers built from byte lists *)
+Definition is_byte (x : Z) : Prop := 0 <= x < 256.
+
+Lemma nthZ_byte d : Forall is_byte d -> forall i, 0 <= nthZ d i < 256.
+Proof.
+  induction 1 as [|x r Hx Hr IH]; intros i; cbn [nthZ]; [lia|].
+  destruct (i =? 0); [exact Hx | apply IH].
+Qed.
+
+Lemma recv_buf_bytes size stale d len :
+  Forall is_byte d -> (forall i, is_byte (stale i)) -> bytes_ok (recv_buf size stale d len).
+Proof.
+  intros Hd Hs i. cbn [recv_buf bget]. destruct (i <? len); [apply nthZ_byte; exact Hd | apply Hs].
+Qed.
+
+Lemma lenZ_nonneg (l : list Z) : 0 <= lenZ l.
+Proof. induction l; cbn [lenZ]; lia. Qed.
+
+Lemma snmp_udp_safe size recvmax stale d :
+  Forall is_byte d -> (forall i, is_byte (stale i)) ->
+  Z.min (lenZ d) recvmax + 6 <= size -> size < 2147483648 ->
+  snmp_udp size recvmax stale d <> Got OOB /\ snmp_udp size recvmax stale d <> Got NoFuel.
+Proof.
+  intros Hd Hs Hl Hsz. unfold snmp_udp.
+  destruct (Z.min (lenZ d) recvmax <=? 0) eqn:E; [split; congruence|].
+  set (b := recv_buf size _ d _).
+  assert (HS : safe (snmp_msg_decode b (Z.min (lenZ d) recvmax))).
+  { apply snmp_msg_decode_safe.
+    - subst b. apply recv_buf_bytes; [exact Hd|]. destruct snmp_buf_zeroed; [intros i; unfold is_byte; lia | exact Hs].
+    - lia.
+    - subst b. cbn [recv_buf bsize]. lia.
+    - lia. }
+  destruct HS as [S1 S2]. split; intros HC; injection HC; intros HC'; [apply S1 | apply S2]; exact HC'.
 Qed.
